@@ -1013,3 +1013,41 @@ Proof.
   intros tbl k port idx name addr Hv H16 Hi Hnz.
   exact (sa_roundtrip_v6 tbl k port idx addr Hv H16 (ZIName tbl idx name Hi) (or_intror Hnz)).
 Qed.
+
+(* ------------------------------------------------------------------ *)
+(* values handed out stay what they were (runner level) and the pooled *)
+(* buffer of itod is never given back                                   *)
+
+Lemma sockaddr_step_kept : forall st l, exists ext, sa_kept (sockaddr_step st l) = sa_kept st ++ ext.
+Proof.
+  intros st l. unfold sockaddr_step.
+  destruct (sym_eqb (fst l) "if").
+  { destruct (snd l) as [|[ | |] [|[ | |] [|? ?]]]; exists []; rewrite app_nil_r; reflexivity. }
+  destruct (sym_eqb (fst l) "keep").
+  { destruct (keep_lines (sa_tbl st) (snd l)) as [ls|]; [exists [ls]; reflexivity|exists []; rewrite app_nil_r; reflexivity]. }
+  destruct (sym_eqb (fst l) "keepz").
+  { destruct (keepz_lines (sa_tbl st) (snd l)) as [ls|]; [exists [ls]; reflexivity|exists []; rewrite app_nil_r; reflexivity]. }
+  destruct (sym_eqb (fst l) "churn"); [exists []; rewrite app_nil_r; reflexivity|].
+  destruct (sym_eqb (fst l) "recheck").
+  { destruct (snd l) as [|[ | |] [|? ?]]; exists []; rewrite app_nil_r; reflexivity. }
+  exists []; rewrite app_nil_r; reflexivity.
+Qed.
+
+(* whatever happens after a value was kept (conversions, churn, further keeps, …):
+   re-reading it yields the value that was handed out *)
+Theorem kept_stable : forall ops st i d, (i < List.length (sa_kept st))%nat ->
+  nth i (sa_kept (fold_left sockaddr_step ops st)) d = nth i (sa_kept st) d.
+Proof.
+  induction ops as [|l ops IH]; intros st i d Hi; [reflexivity|].
+  cbn [fold_left]. destruct (sockaddr_step_kept st l) as [ext E].
+  rewrite IH by (rewrite E, app_length; lia).
+  rewrite E. apply app_nth1. assumption.
+Qed.
+
+(* sockaddr.go takes exactly one buffer from the byte-slice pool (in itod) and never
+   returns one: the zone string keeps exclusive ownership of its backing buffer *)
+Theorem pool_sites_no_put : forall fn callee a d, In (fn, callee, a, d) pool_sites ->
+  fn = "itod"%string /\ callee = "Get"%string /\ d = false.
+Proof.
+  intros fn callee a d [H|[]]. inversion H; subst. repeat split; reflexivity.
+Qed.
